@@ -96,7 +96,7 @@ Init ==
   /\ mode = (IF GenMode THEN "env" ELSE "free") /\ hist = <<>> /\ nenv = 0
   \* generation only: the position of the signal is drawn uniformly (a random simulation would otherwise
   \* fire it early most of the time); the loss of the listener is rare and late
-  /\ plan \in (IF GenMode THEN [sigAt : 0..GenLen, lostAt : {GenLen \div 2, GenLen + 1, GenLen + 2, GenLen + 3}]
+  /\ plan \in (IF GenMode THEN [sigAt : 0..GenLen, lostAt : {GenLen \div 2, GenLen + 1, GenLen + 2, GenLen + 3, GenLen + 4, GenLen + 5}]
                          ELSE {[sigAt |-> 0, lostAt |-> 0]})
 
 -----------------------------------------------------------------------------
@@ -110,7 +110,7 @@ AfterTls    == IF cfg.proto = "auto" THEN "sniff" ELSE cfg.proto
 Cur(i) == IF \E k \in Req : c[i].rq[k].st # "done" THEN CHOOSE k \in Req : c[i].rq[k].st # "done" /\ \A j \in Req : j < k => c[i].rq[j].st = "done"
           ELSE 0
 ClientSeesOpen(i) == c[i].cl = "open" /\ c[i].sc \notin {"closed", "dropped"}
-\* the bytes of the client reach the server protocol machine only after the TLS handshake
+\* what the generation configs print as the expected observation after a settled step
 Abstract == [srv |-> srv,
              conns |-> [i \in Conn |-> [closed |-> c[i].sc \in {"closed", "dropped"}, told |-> c[i].told,
                                         reqs |-> [k \in Req |-> c[i].rq[k].st]]]]
@@ -298,8 +298,11 @@ H1Idle(i) == \* nothing of a request in progress: hyper closes such a connection
 
 \* the close future fires (once: it is fused) and graceful_shutdown() is called on the connection;
 \* the driver then polls the connection again in the same loop
+\* (GracefulConnectionDriver::poll polls the connection BEFORE the close future: a connection that ends in
+\* this very poll - its client is gone or sent rubbish - ends without being told)
+Dead(i) == c[i].cl = "gone" \/ c[i].half \/ c[i].junk
 DriverTold(i) ==
-  /\ watchClosed /\ ~c[i].fused /\ c[i].sc \in Live
+  /\ watchClosed /\ ~c[i].fused /\ c[i].sc \in Live /\ ~Dead(i)
   /\ LET closesNow == \/ c[i].sc = "sniff"                                  \* ReadVersion::cancel => Err(Interrupted)
                       \/ c[i].sc = "tls" /\ cfg.proto \in {"h1", "auto"}      \* nothing read yet / still sniffing
                       \/ c[i].sc = "h1" /\ H1Idle(i)                         \* hyper: idle connection closes
